@@ -719,7 +719,7 @@ fn fam_schema(func: Option<&str>, only: Option<u64>) {
     rep.print();
 }
 
-// C07, bounded stand-in, enumerated: every `X op Y` (op = union, intersection, difference) over 18 small source
+// C07, bounded stand-in, enumerated: every `X op Y` (op = union, intersection, difference) over 21 small source
 // types (literal sets allowed/excluded over numbers and strings, the basic tags, two object atoms, unknown) is
 // materialised with the real semtype_to_runtypes, read back with the real to_sem_type, and compared:
 // (a) literal values by the twin's own membership function (exact); (b) when (a) agrees and no list part is
@@ -734,6 +734,12 @@ fn fam_schema2(_func: Option<&str>, only: Option<u64>) {
         let mut vs2 = BTreeMap::new();
         vs2.insert("b".to_string(), Rc::new(SemTypeContext::number()));
         let b = Rc::new(ctx.mapping_definition(vs2, None));
+        let mut vs3 = BTreeMap::new();
+        vs3.insert("a".to_string(), Rc::new(SemTypeContext::number()));
+        let an = Rc::new(ctx.mapping_definition(vs3, None));
+        let mut vs4 = BTreeMap::new();
+        vs4.insert("a".to_string(), Rc::new(SemTypeContext::string()).union(&Rc::new(SemTypeContext::number())).unwrap());
+        let asn = Rc::new(ctx.mapping_definition(vs4, None));
         let n = |vs: Vec<i64>, allowed: bool| Rc::new(SemType::new_complex(0, vec![Rc::new(ProperSubtype::Number { allowed, values: vs.into_iter().map(num).collect() })]));
         let st = |vs: Vec<&str>, allowed: bool| Rc::new(SemType::new_complex(0, vec![Rc::new(ProperSubtype::String { allowed, values: vs.into_iter().map(strc).collect() })]));
         let number = Rc::new(SemTypeContext::number());
@@ -750,6 +756,8 @@ fn fam_schema2(_func: Option<&str>, only: Option<u64>) {
             ("number|\"a\"|{a:string}", number.union(&st(vec!["a"], true)).unwrap().union(&a).unwrap()),
             ("unknown", Rc::new(SemTypeContext::unknown())),
             ("unknown\\{a:string}", Rc::new(SemTypeContext::unknown()).diff(&a).unwrap()),
+            ("{a:number}", an.clone()), ("{a:string|number}", asn.clone()),
+            ("{a:string|number}\\{a:string}", asn.diff(&a).unwrap()),
         ];
         (ctx, base)
     };
@@ -786,6 +794,97 @@ fn fam_schema2(_func: Option<&str>, only: Option<u64>) {
                         format!("materialised as {:?}; read back it denotes {:?}; value {:?}: member of the semantic type = {}, of the materialised type = {}", head.schema.kind, back, v, mem(&ty, &v), mem(&back, &v)),
                         "a Runtype that denotes exactly the same set of values".into());
                     continue;
+                }
+                // (c) what the frontend does next with an Exclude result: remove_nots_of_intersections_and_empty_of_union.
+                // It drops Not<> members by design, so the cleaned type may only GROW: every value of the computed
+                // type must still be accepted, and no Not<> may be left where the printer cannot print it.
+                match head.schema.clone().remove_nots_of_intersections_and_empty_of_union(&schemas, &mut ctx) {
+                    Err(e) => { rep.fail(descr.clone(), format!("remove_nots: Err({})", e), "a Runtype".into()); continue; }
+                    Ok(cleaned) => {
+                        fn has_not(r: &beff_core::ast::runtype::Runtype) -> bool {
+                            use beff_core::ast::runtype::RuntypeKind;
+                            match &r.kind {
+                                RuntypeKind::StNot(_) => true,
+                                RuntypeKind::AnyOf(vs) => vs.iter().any(has_not),
+                                RuntypeKind::AllOf(vs) => vs.iter().any(has_not),
+                                _ => false,
+                            }
+                        }
+                        // executable reading of what remove_nots must return (its own comment: drop the clauses that are
+                        // empty, then drop the Not<> members of the clauses that remain), with emptiness decided by the engine
+                        fn expected(r: &beff_core::ast::runtype::Runtype, vs_: &[&NamedSchema], ctx: &mut SemTypeContext) -> Option<beff_core::ast::runtype::Runtype> {
+                            use beff_core::ast::runtype::{Runtype, RuntypeKind};
+                            Some(match &r.kind {
+                                RuntypeKind::AllOf(vs) => {
+                                    if r.to_sem_type(vs_, ctx).ok()?.is_empty(ctx).ok()? { return Some(Runtype::never()); }
+                                    let mut out = vec![];
+                                    for it in vs.iter() {
+                                        let e = expected(it, vs_, ctx)?;
+                                        if !matches!(e.kind, RuntypeKind::StNot(_)) { out.push(e); }
+                                    }
+                                    Runtype::all_of(out)
+                                }
+                                RuntypeKind::AnyOf(vs) => {
+                                    let mut out = vec![];
+                                    for it in vs.iter() {
+                                        if it.to_sem_type(vs_, ctx).ok()?.is_empty(ctx).ok()? { continue; }
+                                        out.push(expected(it, vs_, ctx)?);
+                                    }
+                                    Runtype::any_of(out)
+                                }
+                                _ => r.clone(),
+                            })
+                        }
+                        if let Some(exp) = expected(&head.schema, &schemas, &mut ctx) {
+                            if let (Ok(es), Ok(cs)) = (exp.to_sem_type(&schemas, &mut ctx), cleaned.to_sem_type(&schemas, &mut ctx)) {
+                                let mut diff: Option<Val> = None;
+                                for v in vals() {
+                                    if matches!(v, Val::Mapping(_) | Val::List(_)) { continue; }
+                                    if mem(&es, &v) != mem(&cs, &v) { diff = Some(v); break; }
+                                }
+                                let same_obj = {
+                                    let objt = Rc::new(SemType::new_basic(SubTypeTag::Mapping.code()));
+                                    match (es.intersect(&objt), cs.intersect(&objt)) { (Ok(a), Ok(b)) => a.is_same_type(&b, &mut ctx).unwrap_or(true), _ => true }
+                                };
+                                if diff.is_some() || !same_obj {
+                                    rep.fail(format!("semantic type {} = {:?}, materialised as {:?}", descr, ty, head.schema.kind),
+                                        format!("remove_nots returns {:?}", cleaned.kind),
+                                        format!("{:?} (empty clauses dropped, Not<> members of the others dropped)", exp.kind));
+                                    continue;
+                                }
+                            }
+                        }
+                        if has_not(&cleaned) {
+                            rep.fail(format!("semantic type {} = {:?}", descr, ty), format!("after remove_nots the type still contains Not<>: {:?}", cleaned.kind), "only constructs the code generator can print".into());
+                            continue;
+                        }
+                        match cleaned.to_sem_type(&schemas, &mut ctx) {
+                            Err(e) => { rep.fail(descr.clone(), format!("cleaned type cannot be read back: Err({})", e), "a type".into()); continue; }
+                            Ok(cs) => {
+                                let mut lost: Option<Val> = None;
+                                for v in vals() {
+                                    if matches!(v, Val::Mapping(_) | Val::List(_)) { continue; }
+                                    if mem(&ty, &v) && !mem(&cs, &v) { lost = Some(v); break; }
+                                }
+                                if let Some(v) = lost {
+                                    rep.fail(format!("semantic type {} = {:?}", descr, ty),
+                                        format!("after remove_nots it is {:?}, read back {:?}: the value {:?} of the computed type is no longer accepted", cleaned.kind, cs, v),
+                                        "the cleaned type accepts at least the values of the computed type".into());
+                                    continue;
+                                }
+                                let objt = Rc::new(SemType::new_basic(SubTypeTag::Mapping.code()));
+                                if let (Ok(t1), Ok(t2)) = (ty.intersect(&objt), cs.intersect(&objt)) {
+                                    match t1.is_subtype(&t2, &mut ctx) {
+                                        Ok(true) => {}
+                                        Ok(false) => { rep.fail(format!("semantic type {} = {:?}", descr, ty),
+                                            format!("after remove_nots it is {:?}: its object part {:?} no longer contains the object part {:?} of the computed type", cleaned.kind, t2, t1),
+                                            "the cleaned type accepts at least the values of the computed type".into()); continue; }
+                                        Err(e) => { rep.fail(descr.clone(), format!("is_subtype: Err({})", e), "true".into()); continue; }
+                                    }
+                                }
+                            }
+                        }
+                    }
                 }
                 // objects: compare the mapping parts through the engine (both sides restricted to objects)
                 let obj = Rc::new(SemType::new_basic(SubTypeTag::Mapping.code()));
